@@ -418,7 +418,7 @@ class HashDomain(ExactCollections, Domain):
         return [("ok", TOP, state)]
 
 
-def batching_rows(prog, hc, r3, r4):
+def batching_rows(prog, hc, r3, r4, tier="quick"):
     """C12.R3 (batching and dispatch) and R4 (merge), decided on what get_many / gets_many / set_many / delete_many do
     with three symbolic keys under every routing pattern over two servers (and 'no server left')."""
     from .colls import GenV, new_object
@@ -435,6 +435,14 @@ def batching_rows(prog, hc, r3, r4):
         {"K1": "A"},  # a single key (a special-cased one-key path must behave like the general one)
         {"K1": None},
     ]
+    if tier == "thorough":
+        routes += [
+            {"K1": "A", "K2": "B", "K3": "C"},
+            {"K1": "C", "K2": "A", "K3": "B"},
+            {"K1": None, "K2": "B", "K3": "B"},
+            {"K1": "A", "K2": "B", "K3": None},
+            {"K1": "A", "K2": "B"},
+        ]
     K = list(ALL)
 
     def servers_in_order(route):
@@ -637,7 +645,7 @@ def run(chk):
     # ------------------------------------------------------------------ R3 / R4 batches
     r3 = chk.rule("C12.R3", "batching: each key is inserted exactly once, under the inner key, into the batch of the server its own routing call returned; skipped only when no server is left; each batch dispatched once to that server's client")
     r4 = chk.rule("C12.R4", "merge: get_many returns the union of the per-server answers, set_many concatenates the failures, delete_many visits each key once")
-    batching_rows(prog, hc, r3, r4)
+    batching_rows(prog, hc, r3, r4, tier=chk.tier)
     # add_server keeps clients[_make_client_key(s)].server == s
     add = prog.method(hc, "add_server")
     ctor = [c for c in walk_no_nested(add.node) if isinstance(c, ast.Call) and any(k.arg is None and is_self_attr(k.value, "default_kwargs") for k in c.keywords)]
